@@ -146,12 +146,17 @@ var identPool = []ident{
 	{"client", "web-embedded", "", "a<b 100%v"},
 	{"client-x", "pc", "", ""},
 	{"account", "pc", "en", "Z"},
+	{"client", "phone", "", long130},
 }
-var featPool = []string{"http://jabber.org/protocol/caps", "http://jabber.org/protocol/disco#info", "http://jabber.org/protocol/disco#items", "http://jabber.org/protocol/muc", "a", "a<b%20c", "é", "B"} // '<' must be escaped, '%' must not be interpreted (percent-encoded URIs)
+// strings as long as, and longer than, the block of the hash functions (64 and 128 bytes)
+var long64 = "urn:long:" + strings.Repeat("f", 55)
+var long130 = "urn:long:" + strings.Repeat("g", 121)
+
+var featPool = []string{"http://jabber.org/protocol/caps", "http://jabber.org/protocol/disco#info", "http://jabber.org/protocol/disco#items", "http://jabber.org/protocol/muc", "a", "a<b%20c", "é", "B", long64, long130} // '<' must be escaped, '%' must not be interpreted (percent-encoded URIs)
 var fieldNames = []string{"os", "ip%5Fversion", "Os", ""} // the last one: a field without a var (eg. type fixed): its values still belong to the form
 var valuePool = []string{"ipv6", "ipv4", "a<b%s"}
 var valuePoolEmpty = []string{"", "ipv4", "a<b%d"} // the empty value still contributes its separator (XEP-0115 5.1 step 7.3)
-var typePool = []string{"urn:xmpp:dataforms:softwareinfo", "urn:a", "urn:a:b%25", "urn:a#meta"} // one FORM_TYPE a prefix of two others, continued by a byte above and by one below the separator
+var typePool = []string{"urn:xmpp:dataforms:softwareinfo", "urn:a", "urn:a:b%25", "urn:a#meta", " urn:a\n x "} // one FORM_TYPE a prefix of two others, continued by a byte above and by one below the separator
 
 // choose an ordered selection without replacement of at most max items out of n.
 func selection(c *nd.Ctx, n, max int, label string) []int {
